@@ -181,3 +181,37 @@ PROPS["C08"] = {
     "note": "The quote/unquote inverse law and exact splitting at whitespace are string-valued and not decided. Infeasible-edge pruning "
             "is limited to re-evaluations of the validity test in the valid typestate.",
 }
+
+SOURCE_COMMITS += ["8ed1b85", "c6f80c1", "be8f80a", "34a94da"]  # C01/C02 fixes
+
+PROPS["C01"] = {
+    "claimed": True,
+    "technique": "static analysis: key-provenance dataflow on the value maps, reaching-definition conversion check on stores, guard dominance of option parsing by the '--' flag, order-polarity lint, sibling default tables",
+    "text": (
+        "Decides the clauses of value recovery that are visible in code shape: the value maps of Args are subscripted/tested/deleted "
+        "only with canonical keys taken from the format (so access by long name, short name or position agrees); every definition "
+        "reaching a store into the maps is <declaration>.parse(...) or the literal True (reaching definitions over the CFG, incl. the "
+        "element-wise loop for multi-values); every option-parsing call in the token loop is dominated by the separator flag, which is "
+        "only cleared, and only at '--'; collected values are appended / assigned in place, iterated forward, never reversed or sorted, "
+        "and a looked-ahead token is pushed back at the front; option()/options() and argument()/arguments() report the same value "
+        "for an unset parameter."
+    ),
+    "note": "That every spelling/interleaving of every assignment parses to exactly that assignment depends on token contents and is "
+            "not decided (needs execution or a solver).",
+}
+
+PROPS["C02"] = {
+    "claimed": True,
+    "technique": "static analysis: mode-variable slice (non-interference proof for 'lenient'), exception-flow over the CFG with handler coverage, guarded-lookup dominance, raised-class table, implicit-raiser model for int()/float(), two-sided index predicate",
+    "text": (
+        "Proves the lenient/strict agreement clause for the current source: every use of 'lenient' under parse() is either forwarding "
+        "into a callee's 'lenient' parameter or a guard whose strict arm inevitably raises, so a strict run that completes took the "
+        "same arm as the lenient run at every such test (lock-step argument, DESIGN.md C02). Further decides: neither parse error can "
+        "escape in lenient mode (each raise is in a strict arm or under parse()'s handler that re-raises only when strict); every "
+        "format lookup that can raise is dominated by the matching has_* on the same key; the parser raises only the two documented "
+        "classes and unknown options raise the no-such-option class; int()/float() conversions are under handlers covering every "
+        "class the implicit-raiser model lists and re-raise ValueError; the by-position existence test bounds the index on both sides."
+    ),
+    "note": "Implicit exceptions that need string-length reasoning (token[0], name[0], pop(0)) are not decided. Determinism of the "
+            "non-'lenient' part of the parser is assumed.",
+}
